@@ -28,6 +28,17 @@ C19_HARNESSES = [
 
 CHECKS = {
     "C19": {"harnesses": C19_HARNESSES},
+    "C09": {
+        "harnesses": [H("futures", "fut_v2", 3, 4, args=[m, o]) for m in (0, 1, 2) for o in (0, 1, 2)] + [
+            H("futures", "fut_v1", 2, 3, args=[0, 0]),
+            H("futures", "fut_v1", 2, 3, args=[0, 1]),
+            H("futures", "fut_v1", 3, 4, args=[1, 0]),
+            H("futures", "fut_v1", 3, 4, args=[2, 0]),
+            H("futures", "fut_closed"),
+            H("futures", "fut_faults"),
+            H("futures", "det_terminate"),
+        ],
+    },
     "C08": {
         "harnesses": [
             H("scopes", "scope_v2", 3, 4, args=[0]),
